@@ -572,7 +572,20 @@ func guardCoversAccepts(g guard) bool {
 		return true
 	}
 	b := g.iff.Block()
+	// a per-element check inside a loop: an accepting return inside that loop (reachable without going back through
+	// the loop header) stops the walk early and leaves the remaining elements unchecked
+	var header *ssa.BasicBlock
+	if blockInLoop(b) {
+		for d := b; d != nil && header == nil; d = d.Idom() {
+			if d != b && blockReaches(b, d) && blockReaches(d, b) {
+				header = d
+			}
+		}
+	}
 	for _, r := range acceptReturns(g.fn) {
+		if header != nil && header.Dominates(r.Block()) && reachesAvoiding(b, r.Block(), header) {
+			return false
+		}
 		if r.Block() == b {
 			continue
 		}
@@ -597,6 +610,11 @@ func guardCoversAccepts(g guard) bool {
 		ok := false
 		for d := b.Idom(); d != nil; d = d.Idom() {
 			if d.Dominates(r.Block()) && blockReaches(b, d) {
+				// the accepting return must lie after the loop: an accept reachable from inside the body without
+				// going back through the header ends the walk early and leaves the remaining elements unchecked
+				if reachesAvoiding(b, r.Block(), d) {
+					return false
+				}
 				ok = true
 				break
 			}
@@ -851,4 +869,31 @@ func decodedInto(a *ssa.Alloc) bool {
 		return false
 	}
 	return check(a, 0)
+}
+
+// reachesAvoiding: some path from a successor of `from` reaches `to` without passing through `avoid`.
+func reachesAvoiding(from, to, avoid *ssa.BasicBlock) bool {
+	seen := map[*ssa.BasicBlock]bool{avoid: true}
+	var walk func(b *ssa.BasicBlock) bool
+	walk = func(b *ssa.BasicBlock) bool {
+		if b == to {
+			return true
+		}
+		if seen[b] {
+			return false
+		}
+		seen[b] = true
+		for _, s := range b.Succs {
+			if walk(s) {
+				return true
+			}
+		}
+		return false
+	}
+	for _, s := range from.Succs {
+		if walk(s) {
+			return true
+		}
+	}
+	return false
 }
